@@ -30,6 +30,15 @@ func genC17(tier string, r *core.Rand) Scenario {
 	}
 	a.Status, b.Status = true, true
 	a.Gzip, b.Gzip = false, false
+	// a slow status consumer (GUI redraw): some reports take longer than the
+	// rest of the transfer, so a report can still be in progress when the
+	// transfer ends or the next message of the block starts
+	for _, st := range []*StationPlan{&a, &b} {
+		if r.Chance(0.3) {
+			hi := []int{1000, 100000, 1500000}[r.Intn(3)]
+			st.StatusDelayUs = core.Tape(r, r.Range(1, 5), func() int { return r.Pick(1, 2) * r.Intn(hi) })
+		}
+	}
 	l := GenLink(r)
 	pace := func() []int {
 		switch r.Pick(2, 3, 3, 2) {
@@ -119,6 +128,10 @@ func execC17(t *testing.T, prop string, raw json.RawMessage, trace bool) core.Ou
 		sp.Link.Cut = nil
 		ra, rb, _, ok := runSession(sim, a, b, sp, nil, nil)
 		// let the reporter goroutines deliver their final reports
+		time.Sleep(2 * time.Second)
+		for i := 0; i < 3600 && (a.status.Busy() || b.status.Busy()); i++ {
+			time.Sleep(time.Second)
+		}
 		time.Sleep(2 * time.Second)
 		if !ok || ra.err != nil || rb.err != nil || ra.panicVal != nil || rb.panicVal != nil {
 			// a failed fault-free session is C01's business; C17 judges completed transfers only
